@@ -20,7 +20,7 @@ ANCHORS = ["bases._setitem", "dimarraycls._setvalues_ortho", "dimarraycls._setva
 ANCHORS_REQUIRED = ["bases.__setitem__"]
 FLOORS = {"quick": {"evaluations": 2000, "distinct": 500, "outcome:state-compared": 1500, "outcome:readback-compared": 1000},
           "thorough": {"evaluations": 50000, "distinct": 2000}}
-SPELLINGS = ['setitem', 'put', 'put', 'put_axis', 'put_dict', 'loc', 'ix', 'iloc', 'put_pos', 'ndmask']
+SPELLINGS = ['setitem', 'put', 'put', 'put_axis', 'put_dict', 'loc', 'ix', 'iloc', 'put_pos', 'ndmask', 'posmode-setitem', 'posmode-put']
 SCAL = {'b': True, 'i': 7, 'f': 2.5, 's': 'hello'}
 
 
@@ -141,13 +141,13 @@ def gen_case(rng, ak=None, vk=None, form=None, iks=None, cast=None, spelling=Non
         rhs = gen_rhs(rng, vk, (), 'scalar')
     else:
         rhs = gen_rhs(rng, vk, selshape, 'array')
-    if spelling in ('setitem', 'loc', 'ix', 'iloc'):
+    if spelling in ('setitem', 'loc', 'ix', 'iloc', 'posmode-setitem'):
         c, inp = False, True
     else:
         c = (rng.random() < 0.5) if cast is None else cast
         inp = rng.random() < 0.5
     return {"a": sp, "ak": ak, "vk": vk, "form": form, "spelling": spelling, "idx": idx, "ikinds": ikinds, "rhs": rhs, "cast": c, "inplace": inp,
-            "single_dim": single_dim, "axis_by_pos": rng.random() < 0.5}
+            "single_dim": single_dim, "axis_by_pos": rng.random() < 0.5, "negpos": rng.random() < 0.4}
 
 
 def cast_dtype(adt, rhs):
@@ -317,8 +317,16 @@ def check(case, ctx):
         idx = case["idx"]
         t = tuple(idx)
         single = t[0] if len(t) == 1 else t
+        if case.get("negpos"):
+            # the same positions counted from the end
+            pos = [(p - len(l)) if not isinstance(p, list) else [q - len(l) for q in p] for p, l in zip(pos, m.labels)]
         pt = tuple(p if not isinstance(p, list) else (p if len(p) else np.array([], dtype=int)) for p in pos)
         psingle = pt[0] if len(pt) == 1 else pt
+        if spelling.startswith('posmode'):
+            # an array that indexes by position because it was created while the option said so (the option is back to 'label')
+            with common.options(**{'indexing.by': 'position'}):
+                a = gen.build(sp)
+            ctx.outcomes['instance-position-mode'] += 1
         if spelling == 'setitem':
             label = "a[t] = v"
             def fn():
@@ -335,6 +343,13 @@ def check(case, ctx):
             label = "a.iloc[p] = v"
             def fn():
                 a.iloc[psingle] = rhs
+        elif spelling == 'posmode-setitem':
+            label = "a[p] = v (array created under indexing.by='position')"
+            def fn():
+                a[psingle] = rhs
+        elif spelling == 'posmode-put':
+            label = "a.put(p, v, cast=%r, inplace=%r) (array created under indexing.by='position')" % (cast, inplace)
+            fn = lambda: a.put(pt, rhs, cast=cast, inplace=inplace)
         elif spelling == 'put_pos':
             label = "a.put(p, v, indexing='position', cast=%r, inplace=%r)" % (cast, inplace)
             fn = lambda: a.put(pt, rhs, indexing='position', cast=cast, inplace=inplace)
